@@ -308,6 +308,24 @@ func extraPrograms() []progCase {
 		c["l3"] = []interface{}{1, 2, 2}
 		out = append(out, progCase{Name: "filter:" + f, Src: src, Files: files, Ctx: map[string]pongo2.Context{"c1": c}})
 	}
+	// calls: every signature shape of a context function x 0..8 written arguments, evaluated twice per execution
+	// (a compiled call's argument list belongs to the template: executing it must leave it as it was)
+	callees := []string{"fctxv", "fsum", "fctx", "fanyv", "fcat", "fm1", "rptr.M1", "rstruct.Fn", "nope"}
+	for _, fn := range callees {
+		for n := 0; n <= 8; n++ {
+			var as []string
+			for k := 0; k < n; k++ {
+				as = append(as, []string{"i", strconv.Itoa(k + 1), "nv"}[k%3])
+			}
+			src := "{% for i in l3 %}{{ " + fn + "(" + strings.Join(as, ", ") + ") }};{% endfor %}{% if " + fn + "(" + strings.Join(as, ", ") + ") %}t{% endif %}"
+			c := ctx()
+			for k, v := range resolveCatalogue() {
+				c[k] = v
+			}
+			c["l3"] = []interface{}{1, 2, 2}
+			out = append(out, progCase{Name: "call:" + fn + ":" + strconv.Itoa(n), Src: src, Files: files, Ctx: map[string]pongo2.Context{"c1": c}})
+		}
+	}
 	out = append(out, progCase{Name: "extends", Src: `{% extends "/base0" %}{% block bb %}{% cycle "a" "b" %}{{ block.Super }}{% endblock %}`,
 		Files: files, Ctx: map[string]pongo2.Context{"c1": ctx()}})
 	out = append(out, progCase{Name: "trim", Src: "{% if 1 %}\n\n\n  x  {% endif %}\n\n  {% set a=1 %}\n\ny", Files: files, Ctx: map[string]pongo2.Context{"c1": ctx()}})
